@@ -70,6 +70,7 @@ type c20Field struct {
 	Name string `json:"name"`
 	Kind string `json:"kind"`
 	Tag  string `json:"tag"`
+	Anon bool   `json:"anon,omitempty"` // anonymous (Go-embedded) struct field: `gorm.Model` written the usual way
 }
 
 type c20Spec struct {
@@ -82,6 +83,9 @@ type c20Spec struct {
 	// for the generated model, every other entry is a relation kind whose RELATED model is passed explicitly (c20Relatives);
 	// empty = the generated model alone.  See c20_opts.go for what each setting may switch off.
 	Cfg    *c20Cfg  `json:"cfg,omitempty"`
+	// Qual: the SQLite schema the model's table name is qualified with ("" = none, "main" = the naming strategy / Tabler
+	// answers "main.<table>": gorm splits it into Statement.TableExpr and the bare Statement.Table).  c20_cols.go.
+	Qual   string   `json:"qual,omitempty"`
 	Extra1 []string `json:"extra1,omitempty"`
 	Extra2 []string `json:"extra2,omitempty"`
 }
@@ -127,6 +131,8 @@ var c20Kinds = map[string]reflect.Type{
 	"toys": reflect.TypeOf([]C20Toy(nil)), "badge": reflect.TypeOf(C20Badge{}), "tags": reflect.TypeOf([]C20Tag(nil)),
 	"audit": reflect.TypeOf(C20Audit{}), "stamp": reflect.TypeOf(C20Stamp{}),
 	"pics": reflect.TypeOf([]*C20Pic(nil)),
+	// structs whose columns the model's own fields may SHADOW (c20_cols.go)
+	"gmodel": reflect.TypeOf(gorm.Model{}), "base": reflect.TypeOf(C20Base{}), "plain2": reflect.TypeOf(C20Plain2{}),
 }
 
 func c20IsRel(kind string) bool {
@@ -153,7 +159,7 @@ func c20Type(fs []c20Field) (t reflect.Type, err error) {
 		if f.Tag != "" {
 			tag = reflect.StructTag(`gorm:"` + f.Tag + `"`)
 		}
-		sf = append(sf, reflect.StructField{Name: f.Name, Type: kt, Tag: tag})
+		sf = append(sf, reflect.StructField{Name: f.Name, Type: kt, Tag: tag, Anonymous: f.Anon})
 	}
 	return reflect.StructOf(sf), nil
 }
@@ -318,6 +324,10 @@ func c20Value(f c20Field, row int, fi int) (reflect.Value, bool) {
 		return reflect.ValueOf(C20Stamp{Serial: fmt.Sprintf("ser%d_%d", row, fi), Batch: n}), true
 	case "audit":
 		return reflect.ValueOf(C20Audit{CreatedBy: fmt.Sprintf("u%d", row), Note: fmt.Sprintf("note%d_%d", row, fi)}), true
+	case "plain2":
+		return reflect.ValueOf(C20Plain2{Note: fmt.Sprintf("pn%d_%d", row, fi), Count: n, Ratio: float64(n) + 0.25, Label: fmt.Sprintf("pl%d_%d", row, fi)}), true
+	case "gmodel", "base": // keys and time stamps are gorm's to fill
+		return reflect.Zero(c20Kinds[f.Kind]), true
 	}
 	return reflect.Value{}, false
 }
@@ -376,10 +386,11 @@ func c20RunHistory(sp c20Spec) (out c20Outcome) {
 		return c20Outcome{Stage: "type-v2", Err: err.Error()}
 	}
 	cfg := sp.Cfg.get()
-	db, rec := c20OpenCfg(sp.Table, cfg)
+	db, rec := c20OpenCfg(c20QualTable(sp), cfg)
 	if sq, e := db.DB(); e == nil {
 		defer sq.Close()
 	}
+	c20Handle := func(db *gorm.DB, c c20Cfg) *gorm.DB { return c20HandleT(db, c, sp.Table) } // (the handle may name the table)
 	plain := cfg.Naming == "" // the structural expectations of c20_exist.go are written for the default naming strategy
 	m1 := reflect.New(t1).Interface()
 	m2 := reflect.New(t2).Interface()
@@ -441,9 +452,9 @@ func c20RunHistory(sp c20Spec) (out c20Outcome) {
 	}
 	// what v1 declares exists on the table CreateTable produced
 	{
-		w1 := noFK(c20WantOf(sp.Table, sp.V1, nil))
+		w1 := noFK(c20WantOf(sp.Table, c20Owners(sp.V1), nil))
 		cls := map[string]string{}
-		for _, f := range sp.V1 {
+		for _, f := range c20Owners(sp.V1) {
 			cls[c20ColName(f.Name, f.Tag)] = c20Class(f.Kind)
 		}
 		// (the behavioural probes need two rows: histories with fewer rows are not judged here)
@@ -524,10 +535,21 @@ func c20RunHistory(sp c20Spec) (out c20Outcome) {
 		if c20IsRel(f.Kind) {
 			continue
 		}
+		if c20Embeds(f.Kind) || f.Kind == "audit" || f.Kind == "stamp" {
+			// member-wise, and only the members that OWN their column (another field may shadow it: schema.Parse decides)
+			if name, e, o := c20EmbeddedSame(db, st2.Schema, f.Name, recv, got); name != "" {
+				out.Stage, out.Verdict = "v2-read", "field "+f.Name+"."+name+" of the v2 record read back differently"
+				out.Expected, out.Observed = e, o
+				return
+			}
+			continue
+		}
 		if fd := st2.Schema.LookUpField(f.Name); fd == nil && f.Kind != "audit" && f.Kind != "stamp" {
 			continue
 		} else if fd != nil && (!fd.Readable || !fd.Creatable) {
 			continue
+		} else if fd != nil && fd.DBName != "" && st2.Schema.FieldsByDBName[fd.DBName] != fd {
+			continue // the field lost its column to another field of the model: not stored by design
 		}
 		if !c20SameScalar(recv.Elem().Field(i), got.Elem().Field(i)) {
 			out.Stage, out.Verdict = "v2-read", "field "+f.Name+" of the v2 record read back differently"
@@ -540,10 +562,10 @@ func c20RunHistory(sp c20Spec) (out c20Outcome) {
 	for _, f := range sp.V1 {
 		oldNames[f.Name] = true
 	}
-	want := noFK(c20WantOf(sp.Table, sp.V2, oldNames))
+	want := noFK(c20WantOf(sp.Table, c20Owners(sp.V2), oldNames))
 	{ // latitude: an index NAME that v1 already declared with other members is a CHANGED index, not an added one:
 		// AutoMigrate looks indexes up by name and leaves it alone; the property only speaks about additions.
-		w1 := c20WantOf(sp.Table, sp.V1, nil)
+		w1 := c20WantOf(sp.Table, c20Owners(sp.V1), nil)
 		var keep []c20WantIdx
 		for _, wi := range want.Idx {
 			changed := false
@@ -559,7 +581,7 @@ func c20RunHistory(sp c20Spec) (out c20Outcome) {
 		want.Idx = keep
 	}
 	classOf := map[string]string{}
-	for _, f := range sp.V2 {
+	for _, f := range c20Owners(sp.V2) {
 		classOf[c20ColName(f.Name, f.Tag)] = c20Class(f.Kind)
 	}
 	fail := func(stage, v, e, o string) c20Outcome {
@@ -648,7 +670,7 @@ func c20Judge(r *Result, sp c20Spec) c20Outcome {
 	if o.Verdict != "" {
 		m := c20Minimise(sp, o)
 		mo := c20RunHistory(m)
-		if id := c20KnownPattern(m, mo); id != "" && listed(id) {
+		if id := c20Known(m, mo); id != "" && listed(id) {
 			r.KnownFinding(id, mo.Verdict+": "+mo.Observed)
 		} else {
 			r.Violate(Violation{Kind: "e2e", Suite: "history", Input: m, Observed: mo, Expected: mo.Expected, Note: mo.Verdict})
@@ -668,6 +690,7 @@ func c20Minimise(sp c20Spec, o c20Outcome) c20Spec {
 		for _, c := range []func(x *c20Spec){
 			func(x *c20Spec) { x.Cfg, x.Extra1, x.Extra2 = nil, nil, nil },
 			func(x *c20Spec) { x.Cfg = nil },
+			func(x *c20Spec) { x.Qual = "" },
 			func(x *c20Spec) { x.Extra1 = nil },
 			func(x *c20Spec) { x.Extra2 = nil },
 			func(x *c20Spec) { c := x.Cfg.get(); c.Naming = ""; x.Cfg = &c },
